@@ -46,4 +46,11 @@ inductive CliKind
   | append | store | storeTrue | storeFalse | otherAction
   deriving DecidableEq, Repr
 
+/-- What `normalise_paths` assigns to a path option when its "is this still the default?" test
+    (`if self.<field> == <SENTINEL>:`) succeeds. -/
+inductive SentinelRepl
+  | packageFile   -- `Path(__file__).parent / <SENTINEL>`: the file of that name shipped inside the `ford` package
+  | projectDir    -- `self.directory`: the directory of the project file
+  deriving DecidableEq, Repr
+
 end Ford
